@@ -206,6 +206,10 @@ def run_case(case, ctx):
         from smartquery.ast_ops import LambdaOp, NameOp
         try:
             ast_names = {'af': LambdaOp(args=[NameOp('p0')], expr=ctx.P.parse('[p0, len]')), 'ag': LambdaOp(args=[], expr=ctx.P.parse('1')), 'ax': ctx.P.parse('[1, "a"]')}
+            if hash(src) % 4 == 0:
+                # a helper whose own evaluation fails (error path of the ast_names binding loop): the call fails, and names still holds plain data only
+                ast_names[random.choice(['zbad', 'af2'])] = ctx.P.parse(random.choice(['[1][5]', 'nope_undefined + 1', '{"a": 1}["b"]', 'pop([])']))
+                ctx.count('evals_with_a_failing_ast_names_helper')
         except Exception:
             ast_names = None
     M6.begin()
